@@ -131,12 +131,14 @@ def serialise(g, rng, base_name="Opc.Ua.NodeSet2.xml", placement=None, file_name
     names = file_names or {}
     if placement is None:
         placement = [rng.choice(["src", "trg", "both"]) for _ in g.refs]
+        for i in getattr(g, "force_both", []):
+            if i < len(placement): placement[i] = "both"
         for i, j in getattr(g, "mutual", []):
             if i < len(placement) and j < len(placement) and rng.random() < 0.7: placement[i], placement[j] = rng.choice([("src", "trg"), ("both", "both"), ("trg", "src")])
     parts = []
     for U in uris_docs:
         mine_all = [k for k in g.order if k[0] == U]
-        if split and U != UA and len(mine_all) >= 2 and rng.random() < 0.4:
+        if split and U != UA and len(mine_all) >= 2 and (split == "force" or rng.random() < 0.4):
             cut = rng.randint(1, len(mine_all) - 1); parts += [(U, mine_all[:cut], 0), (U, mine_all[cut:], 1)]
         else: parts.append((U, mine_all, 0))
     for di, (U, mine, part_no) in enumerate(parts):
